@@ -6,7 +6,12 @@ import (
 	"context"
 	"encoding/json"
 	"fmt"
+	"runtime"
 	"sort"
+	"strings"
+	"sync"
+	"sync/atomic"
+	"testing/synctest"
 
 	"verifharness/sched"
 	"verifharness/trace"
@@ -31,6 +36,11 @@ type onScenario struct {
 	MaxCalls int      `json:"maxcalls"`
 	Outs     []string `json:"outs"`
 	Clients  [][]onOp `json:"clients"`
+	// M2 (memo only): every client calls the memoized function at once, free-running in parallel on
+	// several Ps (no park points: the window between memo's load and store of its flag has no hook);
+	// the function returns burstout at once
+	Burst    bool   `json:"burst,omitempty"`
+	BurstOut string `json:"burstout,omitempty"`
 }
 
 // onErr is the error of function call K.
@@ -64,12 +74,21 @@ type onDriver struct {
 	calls  int
 	fns    []*onFn
 	lastQ  string
+	mu     sync.Mutex // burst mode: guards nextID, calls
+	ready  atomic.Int32
 }
 
 func init() { Register("once", func() Driver { return &onDriver{} }) }
 
 func genOnce(x *sched.Exec) onScenario {
 	r := x.Rng
+	if strings.Contains(Opt, "burst") {
+		sc := onScenario{Kind: "memo", MaxCalls: 1, Outs: []string{"ok", "err"}, Burst: true, BurstOut: []string{"ok", "err"}[r.Intn(2)]}
+		for i, n := 0, 3+r.Intn(4); i < n; i++ {
+			sc.Clients = append(sc.Clients, []onOp{{Op: "call"}})
+		}
+		return sc
+	}
 	if r.Intn(5) == 0 {
 		sc := onScenario{Kind: "memo", MaxCalls: 1, Outs: []string{"ok", "err"}}
 		n := 2 + r.Intn(3)
@@ -103,6 +122,20 @@ func genOnce(x *sched.Exec) onScenario {
 // fn is the body of the wrapped function (ctx == nil: memo).
 func (d *onDriver) fn(ctx context.Context) (int, error) {
 	x := d.x
+	if d.sc.Burst {
+		d.mu.Lock()
+		d.calls++
+		k := d.calls
+		d.mu.Unlock()
+		x.Log(trace.E{"ev": "fnenter", "k": k})
+		runtime.Gosched()
+		if d.sc.BurstOut == "err" {
+			x.Log(trace.E{"ev": "fnleave", "k": k, "out": "err", "v": k})
+			return 0, &onErr{K: k}
+		}
+		x.Log(trace.E{"ev": "fnleave", "k": k, "out": "ok", "v": 100 + k})
+		return 100 + k, nil
+	}
 	d.calls++
 	f := &onFn{k: d.calls, ctx: ctx}
 	d.fns = append(d.fns, f)
@@ -152,8 +185,10 @@ func (d *onDriver) opFunc(c *onClient, pi int, op onOp) sched.Op {
 	x := d.x
 	xid := (c.idx+1)*100 + pi + 1
 	return sched.Op{Label: "call:" + c.c.Name, Do: func() {
+		d.mu.Lock()
 		d.nextID++
 		id := d.nextID
+		d.mu.Unlock()
 		c.xid = xid
 		ctx, cancel := context.WithCancel(context.Background())
 		c.cancel, c.canc, c.op = cancel, false, op
@@ -170,6 +205,12 @@ func (d *onDriver) opFunc(c *onClient, pi int, op onOp) sched.Op {
 				}
 			}()
 			if op.Op == "call" {
+				if d.sc.Burst {
+					// all callers leave this barrier together, right in front of the call
+					d.ready.Add(1)
+					for d.ready.Load() < int32(len(d.cl)) {
+					}
+				}
 				v, err = d.memo()
 			} else {
 				v, err = d.once.Resolve(ctx)
@@ -265,7 +306,22 @@ func (d *onDriver) Run(x *sched.Exec, raw json.RawMessage) json.RawMessage {
 		x.Log(trace.E{"ev": "quiet", "blk": blk, "xblk": d.blockedXIDs()})
 		d.lastQ = fmt.Sprint(blk, x.T.Seq())
 	}
-	x.Loop(moves, observe, 120+len(x.Sched))
+	if sc.Burst {
+		x.Policy = func(*sched.Actor, string, string, any) bool { return false }
+		for _, c := range x.Clients {
+			prog := c.Prog
+			c.Prog = nil
+			x.Issue(c, func() {
+				for _, op := range prog {
+					op.Do()
+				}
+			})
+		}
+		x.Labels = append(x.Labels, "burst")
+		synctest.Wait()
+	} else {
+		x.Loop(moves, observe, 120+len(x.Sched))
+	}
 
 	// teardown: cancel every Resolve in flight, make every function call finish, run free
 	if x.LogSteps {
